@@ -25,7 +25,8 @@ import urllib.parse
 from concurrent.futures import ProcessPoolExecutor
 
 NSHARDS = 16
-ENC, DEC, ROT, URL, CTRL, QUOTES, DECENUM, NETLOC = 1, 2, 3, 4, 5, 6, 7, 8
+ENC, DEC, ROT, URL, CTRL, QUOTES, DECENUM, NETLOC, SWEEP = 1, 2, 3, 4, 5, 6, 7, 8, 9
+F_EARLY, F_ALIGN = 0x40, 0x20      # flag bits (low nibble = alphabet / mode)
 
 STD = frozenset(b"ABCDEFGHIJKLMNOPQRSTUVWXYZabcdefghijklmnopqrstuvwxyz0123456789+/")
 URLSAFE = frozenset(b"ABCDEFGHIJKLMNOPQRSTUVWXYZabcdefghijklmnopqrstuvwxyz0123456789-_")
@@ -241,6 +242,50 @@ def gen_ladder_records(tier, seed, shard, nshards):
                 yield _rec(op, flag, _ladder_bytes(r, size, style))
 
 
+# fixed inputs of the early-call probe (must equal the constants in harness/c11.cc; the harness refuses to run otherwise)
+EARLY_TEXT = b"early call probe: \"quoted\" 'single' back\\slash %41 a/b?c=d&e ~ tab\t nl\n del\x7f nul\x00 hi\xff\xc3\xa9 Uryyb"
+EARLY_B64_STD = b"ZWFybHkgY2FsbCA+Pj4/Pz8gcHJvYmU="
+EARLY_B64_URL = b"ZWFybHkgY2FsbCA-Pj4_Pz8gcHJvYmU="
+EARLY_RECS = [(ENC, 0, EARLY_TEXT), (ENC, 1, EARLY_TEXT), (DEC, 0, EARLY_B64_STD), (DEC, 1, EARLY_B64_URL), (DEC, 0, EARLY_B64_URL),
+              (ROT, 0, EARLY_TEXT), (URL, 0, EARLY_TEXT), (URL, 1, EARLY_TEXT), (CTRL, 0, EARLY_TEXT), (CTRL, 1, EARLY_TEXT),
+              (QUOTES, 0, EARLY_TEXT)]
+SWEEP_HI = {"quick": 16501, "thorough": 70001}
+SWEEP_SAMPLE = {"quick": 8, "thorough": 64}
+
+
+def gen_round5_records(tier, seed, shard, nshards):
+    """alignment-sweep records, dense base64 length sweep, dense 0..5000 sweeps of the other functions."""
+    r = random.Random("c11-r5-%s-%d-%d" % (tier, seed, shard))
+    # alignment sweep: sizes 0..80 and a few large ones, (ptr,size) entry points; the harness repeats each at offsets 1..15
+    sizes = list(range(0, 81)) + [255, 256, 257, 1000, 4095, 4096, 4097, 12289, 16385, 65537]
+    i = 0
+    for n in sizes:
+        for flag in (0, 1):
+            for kind in ("enc", "dec-valid", "dec-any", "rot"):
+                mine = i % nshards == shard
+                i += 1
+                if not mine or (kind == "rot" and flag):
+                    continue
+                rr = random.Random("c11-align-%d-%d-%d-%s" % (seed, n, flag, kind))
+                if kind == "enc":
+                    yield _rec(ENC, flag | F_ALIGN, rr.randbytes(n))
+                elif kind == "dec-valid":
+                    yield _rec(DEC, flag | F_ALIGN, ref_encode(rr.randbytes(n), flag))
+                elif kind == "dec-any":     # n characters, mostly alphabet: lengths that are not multiples of 4, stray characters
+                    yield _rec(DEC, flag | F_ALIGN, bytes(rr.choices(b"ABCDwxyz0189+/-_=!", k=n)))
+                else:
+                    yield _rec(ROT, F_ALIGN, bytes(rr.choices(b"abcmnopzABCMNOPZ @[`{\xe1", k=n)))
+    # dense base64 sweep: every length, both alphabets, split over the shards by stride
+    for flag in (0, 1):
+        yield _rec(SWEEP, flag, struct.pack("<IIIIIQ", 0, SWEEP_HI[tier], nshards, shard, SWEEP_SAMPLE[tier], r.getrandbits(63)))
+    # dense sweep 0..5000 of the other functions, one input per length and mode, ~10% characters that need escaping
+    plain = b"abcdefghijklmnopqrstuvwxyzABCDEFGHIJKLMNOPQRSTUVWXYZ0123456789"
+    pool = plain * 3 + ESC_SPECIAL[:20]
+    for n in range(shard, 5001, nshards):
+        for op, flag in ((ROT, 0), (URL, 0), (URL, 1), (CTRL, 0), (CTRL, 1), (QUOTES, 0)):
+            yield _rec(op, flag, bytes(r.choices(pool, k=n)))
+
+
 def gen_shard_records(tier, seed, shard, nshards):
     """Yields this shard's records. Deterministic in (tier, seed, shard)."""
     quick = tier == "quick"
@@ -248,6 +293,10 @@ def gen_shard_records(tier, seed, shard, nshards):
 
     def mine(i):
         return i % nshards == shard
+
+    # ---- early-call probe: the first records of EVERY shard (each process has run its static initializers)
+    for op, flag, x in EARLY_RECS:
+        yield _rec(op, flag | F_EARLY, x)
 
     # ---- base64 encode: all strings of length 0..2, length 3 over a byte subset, random longer
     s3 = list(S32)
@@ -356,6 +405,9 @@ def gen_shard_records(tier, seed, shard, nshards):
     # ---- length ladder (sizes around 2^k and 3*2^k up to 1 MiB+1) for every encoder / decoder / escaper
     yield from gen_ladder_records(tier, seed, shard, nshards)
 
+    # ---- round 5: alignment sweep, dense length sweeps
+    yield from gen_round5_records(tier, seed, shard, nshards)
+
     # ---- netloc: every port for each host; the port range is split over the shards
     hosts = list(HOSTS)
     hr = random.Random("c11-hosts-%s-%d" % (tier, seed))
@@ -398,11 +450,14 @@ class _Res:
         self.violations = []
         self.vcounts = {}
         self.samples = []
+        self.prefix = ""
 
     def cls(self, k, n=1):
+        k = self.prefix + k
         self.classes[k] = self.classes.get(k, 0) + n
 
     def violation(self, key, what, case):
+        key = self.prefix + key
         c = self.vcounts.get(key, 0) + 1
         self.vcounts[key] = c
         if c <= 5:
@@ -501,6 +556,25 @@ def judge_shard(job):
             op, flag, n = struct.unpack_from("<BBI", cd, p)
             x = cd[p + 6:p + 6 + n]
             p += 6 + n
+            res.prefix = "early-call:" if flag & F_EARLY else ""    # results produced by the static initializer
+            if flag & F_ALIGN:
+                res.cls("alignment-reference:%s" % {ENC: "b64enc", DEC: "b64dec", ROT: "rot13"}.get(op, "?"))
+            flag &= 0x0F
+            if op == SWEEP:
+                lo, hi, stride, first, every, sd = struct.unpack("<IIIIIQ", x)
+                an = alpha_name(flag)
+                for cnt, ln in enumerate(range(lo + first, hi, stride)):
+                    if cnt % every:
+                        continue
+                    (st0, data), (st1, enc) = obs.field(), obs.field()
+                    res.evaluations += 1
+                    if len(data) != ln:
+                        raise RuntimeError("sweep log out of step in %s" % obs_path)
+                    if st1 != 0 or enc != ref_encode(data, flag):
+                        res.violation("b64sweep:value:%s" % an, "base64_encode differs from Python base64 in the dense length sweep",
+                                      "alphabet=%s n=%d input=%s got=%s" % (an, ln, _show(data, 40), _show(enc, 60)))
+                res.cls("b64sweep:sampled-vs-python:%s:to%d" % (an, hi))
+                continue
             if op == ENC:
                 want = ref_encode(x, flag)
                 an = alpha_name(flag)
